@@ -407,6 +407,8 @@ impl<'a> GeneratorState<'a> {
     fn generate_sizeof(&mut self, expr: &Expr, pos: usize) -> Result<ExprType, Error> {
         match expr {
             Expr::Type(s) => {
+                // The matched text may end with white space
+                let s = s.trim();
                 if s.contains("*") {
                     Ok(ExprType::Immediate(2))
                 } else if s == "char" {
